@@ -81,6 +81,8 @@ class Walk(object):
                 return True               # the non-zero index
             if v[0] in ("nonzero", "data"):
                 return True               # the tree is not empty
+            if v[0] in ("str", "obj"):
+                return True
         raise AnalysisError("FINDEND-TABLE: truth value of %s (%s)" % (_show(v), text(e)[:50] if e is not None else ""))
 
     def ev(self, e):
@@ -91,6 +93,8 @@ class Walk(object):
         if c is not None and e.k != "DeclRefExpr":
             return c
         k = e.k
+        if k == "StringLiteral":
+            return ("str", e.v)
         if k == "DeclRefExpr":
             if e.n in self.env:
                 v = self.env[e.n]
@@ -178,9 +182,9 @@ class Walk(object):
             return int(same == (op == "=="))
         a, b = self.ev(e.kids[0]), self.ev(e.kids[1])
         if op in ("==", "!=") and (isinstance(a, tuple) or isinstance(b, tuple)):
-            if isinstance(a, tuple) and a[0] == "node" and b == 0:
+            if isinstance(a, tuple) and a[0] in ("node", "data", "param", "obj", "str") and b == 0:
                 return int(op == "!=")
-            if isinstance(b, tuple) and b[0] == "node" and a == 0:
+            if isinstance(b, tuple) and b[0] in ("node", "data", "param", "obj", "str") and a == 0:
                 return int(op == "!=")
             if isinstance(a, tuple) and isinstance(b, tuple) and a[0] == b[0] == "node":
                 return int((a == b) == (op == "=="))
@@ -383,8 +387,14 @@ class Walk(object):
                     self.ev(kids[3])
             raise AnalysisError("FINDEND-TABLE: the descent does not end at the leaves")
         if k == "DoStmt":
-            self.stmt(s.kids[0])
-            return
+            for _ in range(4):
+                try:
+                    self.stmt(s.kids[0])
+                except _Break:
+                    return
+                if len(s.kids) < 2 or not self.truth(self.ev(s.kids[1]), s.kids[1]):
+                    return
+            raise AnalysisError("FINDEND-TABLE: the descent does not end at the leaves")
         if k == "BreakStmt":
             raise _Break()
         if k == "GotoStmt":
